@@ -3,7 +3,8 @@
 
     MODELLED (trusted), each accepted by the translator only in exactly the listed shape; defined in Cli/MainOps.v:
       path.Split / path.Ext / path.Join(a, b)        go_path_Split (= path_split) / go_path_Ext / go_path_Join2 (= path_join2, with path.Clean)
-      fmt.Sprintf(format, id)                        op_Sprintf (= sprintf_v: one verb %v; anything else is outside the model)
+      strings.ReplaceAll(p, "%", "%%")               go_strings_ReplaceAll with the two literals of the source (= escape_percent)
+      fmt.Sprintf(format, id)                        op_Sprintf (= sprintf_v: plain characters, %% and one verb %v; anything else is outside the model)
       c.String(N) / c.Bool(N) / c.Int(N)             cx_String / cx_Bool / cx_Int of the context, N a string constant of main.go
       tms20.LoadEmbeddedTileMatrixSet, json.Unmarshal([]byte(s), &ids), pointindex.IsQuadTree, pointindex.DeviationStats,
       tms.TileMatrices[id], snap.SnapPolygon, processing.ProcessFeatures
@@ -31,20 +32,14 @@ Local Notation len := List.length.
 
 (** ** 1. injectSuffixIntoPath *)
 
-Lemma take_until_no_c : forall c s, ~ In c (take_until c s).
+(** strings.ReplaceAll(p, "%", "%%") doubles every percent sign *)
+Lemma go_ReplaceAll_percent : forall p, go_strings_ReplaceAll p (s_ "%") (s_ "%%") = escape_percent p.
 Proof.
-  induction s as [|x s IH]; cbn; [tauto|].
-  destruct (Ascii.eqb_spec x c) as [->|Hne]; cbn; [tauto|]. intros [H|H]; [now apply Hne|now apply IH].
+  intros p. unfold go_strings_ReplaceAll. change (s_ "%") with [percent]. change (s_ "%%") with [percent; percent].
+  induction p as [|x p IH]; [reflexivity|].
+  cbn [replace_all_from is_prefix List.length Nat.pred escape_percent app]. rewrite andb_true_r.
+  rewrite (Ascii.eqb_sym percent x). destruct (Ascii.eqb x percent); now rewrite IH.
 Qed.
-
-Lemma take_drop_until : forall c s, take_until c s ++ drop_until c s = s.
-Proof.
-  induction s as [|x s IH]; cbn; [reflexivity|].
-  destruct (Ascii.eqb x c); cbn; [reflexivity|]. now rewrite IH.
-Qed.
-
-Lemma path_split_file_no_slash : forall p, ~ In slash (snd (path_split p)).
-Proof. intros p. unfold path_split. cbn [snd]. intros H. apply in_rev in H. now apply take_until_no_c in H. Qed.
 
 Lemma go_path_Ext_no_slash : forall f, ~ In slash f -> go_path_Ext f = path_ext f.
 Proof.
@@ -75,7 +70,9 @@ Qed.
 
 Theorem gen_injectSuffixIntoPath_spec : forall p, gen_injectSuffixIntoPath p = MOk (inject_format p).
 Proof.
-  intros p. unfold gen_injectSuffixIntoPath, inject_format, go_path_Split, go_path_Join2.
+  intros p. unfold gen_injectSuffixIntoPath, inject_format. rewrite go_ReplaceAll_percent.
+  generalize (escape_percent p). clear p. intros p.
+  unfold inject_format_raw, go_path_Split, go_path_Join2.
   assert (Hns := path_split_file_no_slash p).
   destruct (path_split p) as [dir file]. cbn [snd] in Hns.
   rewrite go_path_Ext_no_slash by exact Hns.
@@ -860,19 +857,38 @@ Section Main.
       rewrite run_defers_id by exact Hd1. exact Hv3.
     - destruct HT as [e4 [E4 Hv4]]. rewrite E4. cbn [mbind cbind]. exact Hv4.
   Qed.
+
+  (** since F21 the tool never ends because fmt.Sprintf was handed a format outside the model *)
+  Theorem gen_main_never_unsafe_format : forall c fs0 srcs,
+    (forall src, src_lookup L (cx_String c "sourceGpkg") srcs = Some src -> NoDup (map t_name (map fst src))) ->
+    gen_main L (MkWorld fs0 srcs []) c <> MErr UnsafeFormat.
+  Proof.
+    intros c fs0 srcs Hsrc E. assert (H := source_tie_main c fs0 srcs Hsrc). rewrite E in H.
+    unfold same_outcome in H. destruct (model_run c fs0 srcs) as [fs|e] eqn:Em; [contradiction|].
+    cbn [verdict] in H. injection H as <-. unfold model_run in Em.
+    now apply cli_run_never_unsafe_path in Em.
+  Qed.
 End Main.
 
 (** ** 5. Corollaries *)
 
 (** the target path of a tile matrix, computed by the REGENERATED injectSuffixIntoPath followed by fmt.Sprintf
-    (initGPKGTarget), on the safe alphabet of [target_path_spec] *)
+    (initGPKGTarget): for EVERY given path the format is inside the model of fmt.Sprintf and the result is the path with
+    _<id> inserted before the extension *)
+Theorem target_path_total_gen : forall p id,
+  (mdo f <- gen_injectSuffixIntoPath p; op_Sprintf f id) = MOk (target_path p id).
+Proof.
+  intros p id. rewrite gen_injectSuffixIntoPath_spec. cbn [mbind]. unfold op_Sprintf.
+  assert (H := inject_spec p id). unfold inject in H. now rewrite H.
+Qed.
+
+(** ... in particular for the paths made of proper elements of [target_path_spec] *)
 Theorem target_path_spec_gen : forall rooted comps n e id,
   Forall comp_ok comps -> name_ok n e -> ext_ok e ->
   (mdo f <- gen_injectSuffixIntoPath (render_dir rooted comps ++ n ++ e); op_Sprintf f id) =
   MOk (render_dir rooted comps ++ n ++ s_ "_" ++ dec id ++ e).
 Proof.
-  intros rooted comps n e id Hc Hn He. rewrite gen_injectSuffixIntoPath_spec. cbn [mbind]. unfold op_Sprintf.
-  assert (H := target_path_spec rooted comps n e id Hc Hn He). unfold inject in H. now rewrite H.
+  intros rooted comps n e id Hc Hn He. rewrite target_path_total_gen. f_equal. now apply target_path_plain.
 Qed.
 
 (** every flag the Action reads is declared in app.Flags with the kind of the accessor *)
